@@ -141,11 +141,8 @@ func (o *Overloader) Update(newLimitConfig LimitConfig) {
 
 func (o *Overloader) updateConnLimiter(limitConfig *LimitConfig) {
 	o.limitConfigLock.Lock()
-	if limitConfig.MaxConn <= 0 {
-		o.connLimiter = nil
-		o.limitConfigLock.Unlock()
-		return
-	}
+	// MaxConn <= 0 switches the limit off inside the limiter; the limiter
+	// itself is kept, because it counts the connections that are open.
 	if o.connLimiter == nil {
 		o.connLimiter = newConnLimiter(limitConfig.MaxConn)
 	} else if o.limitConfig.MaxConn != limitConfig.MaxConn {
